@@ -3,7 +3,7 @@
    Instantiated for the little-endian host the implementation is executed on
    (helpers = the little-endian branch of Byteorder.h as generated). *)
 From Coq Require Import List NArith Bool String.
-From O1722 Require Import Bits CExpr Host FieldModel AccModel LegacyModel Spec Paths CanModel VssModel VssSpec.
+From O1722 Require Import Bits CExpr Host FieldModel AccModel LegacyModel Spec Paths CanModel VssModel VssSpec ExCan ExListeners.
 From O1722.Generated Require Import Byteorder Tables.
 Import ListNotations.
 Local Open Scope N_scope.
@@ -173,4 +173,13 @@ Definition s_vss_get_data (b:buf) : option rdata := dec_data b.
 Definition s_strs_pack (strs:list (list N)) : N * list N := (N.of_nat (List.length (enc_strings strs)), enc_strings strs).
 Definition s_strs_unpack (dl:N) (data:list N) : list (list N) := dec_strings (N.to_nat dl) (firstn (N.to_nat dl) data).
 
+(* ---- example programs (C18, C19) ---- *)
+Definition m_can_listener (udp fd:bool) (d stale:list N) : lres := can_listener m_ldq m_stq hostE udp fd d stale.
+Definition m_talker_packet (udp tscf fd:bool) (seq udpseq:N) (frs:list (cframe * N)) (pdu:buf) : outcome (list N * buf) :=
+  talker_packet m_ldq m_stq udp tscf fd seq udpseq frs pdu.
+Definition m_hello_recv (udp:bool) (old:buf) (d:list N) := hello_recv m_ldq m_stq udp old d.
+Definition m_vss_recv (udp:bool) (old:buf) (d:list N) := vss_recv (Host.ldw hostE m_helpers) m_ldq m_stq udp old d.
+Definition m_aaf_recv (st:qstate) (d:list N) := aaf_recv m_ldq m_stq st d.
+Definition m_cvf_recv (st:qstate) (d:list N) := cvf_recv m_ldq m_stq st d.
+Definition m_crf_recv (talker:bool) (mtt:N) (st:cstate) (d:list N) := crf_recv m_ldq m_stq talker mtt st d.
 End Instance.
